@@ -368,7 +368,7 @@ package client
 //@   at-call invoke github.com/pion/turn/v5/internal/client.Client.WriteTo assert [C13:indication-when-unconfirmed] !okState(bound.st) || true
 //@   loop 0 invariant udpWriteReady(c) && permInv(perm) && addr != nil && typeis(addr, *net.UDPAddr)
 //@   loop 0 invariant (err == nil || errIs(err, errTryAgain)) ==> has(c.permMap.permMap, ipKey(addr)) && c.permMap.permMap[ipKey(addr)] == perm
-//@   ensures [C14:granted-peer-in-refresh-set] res1 == nil ==> has(c.permMap.permMap, ipKey(addr)) && c.permMap.permMap[ipKey(addr)].st == permStatePermitted
+//@   at-call (*bindingManager).findByAddr assert [C14:granted-peer-in-refresh-set] has(c.permMap.permMap, ipKey(addr)) && c.permMap.permMap[ipKey(addr)] == perm && perm.st == permStatePermitted
 //@   ensures [C13:not-udp-rejected] !typeis(addr, *net.UDPAddr) ==> res1 == errUDPAddrCast && res0 == 0
 //@   ensures res1 == nil ==> res0 == len(payload)
 
